@@ -362,6 +362,7 @@ func runC08(cx *ctx) {
 			return adecCase("read-mutated", t, false, nil, false, []int{h.Pick(rr, []int{1, 48, 200})}, note)
 		})
 	}
+	armorTrailCases(cx, "", true, true)
 	// failing source at every offset of a small armored text
 	{
 		t := realArmor(r.Bytes(100))
@@ -370,6 +371,54 @@ func runC08(cx *ctx) {
 			rr := r.Fork()
 			cx.ru.Do(func() *h.Case {
 				return adecCase("read-src-fault", t[:o], true, randPieces(rr), rr.Bool(), []int{48}, fmt.Sprintf("source fails after %d of %d", o, len(t)))
+			})
+		}
+	}
+}
+
+// armorTrailCases: the region after the END line under every delivery schedule.
+// (a) what follows the END line decides acceptance independently of how the source delivers it;
+// (b) a source failure at any offset from the END line on (inside or after trailing white space) surfaces as an error.
+func armorTrailCases(cx *ctx, prefix string, schedules, faults bool) {
+	r := cx.rng
+	scheds := [][]int{nil, {1}, {2}, {3, 1}, {35}, {36}, {37}, {64}, {1000}}
+	body := realArmor(r.Bytes(h.Pick(r, []int{3, 48, 70})))
+	if schedules {
+		trails := []string{"", "\n", " \n\t\r\n", "\n\ngarbage", "x", "\n" + string(realArmor([]byte("second block"))),
+			strings.Repeat(" ", maxWS-1), strings.Repeat(" ", maxWS), strings.Repeat("\n", maxWS+1), strings.Repeat(" ", 1000) + "x",
+			strings.Repeat("\n", 3000), strings.Repeat(" ", maxWS-2) + "x", "\n-----END AGE ENCRYPTED FILE-----\n"}
+		for ti, tr := range trails {
+			text := append(append([]byte(nil), body...), tr...)
+			for _, pc := range append(scheds, []int{1 + r.Intn(50), 1 + r.Intn(2000)}) {
+				for _, eofWith := range []bool{false, true} {
+					pc, eofWith, ti := pc, eofWith, ti
+					cx.ru.Do(func() *h.Case {
+						return adecCase(prefix+"trail-sched", text, false, pc, eofWith, []int{48}, fmt.Sprintf("trailer #%d (%d bytes) after the END line, delivery pieces %v", ti, len(text)-len(body), pc))
+					})
+				}
+			}
+		}
+	}
+	if faults {
+		for _, ws := range []int{0, 1, 5, 100, maxWS - 1} {
+			text := append(append([]byte(nil), body...), strings.Repeat(" ", ws)...)
+			from := len(body) - len(armor.Footer) - 1
+			step := 1
+			if cx.quick && ws > 5 {
+				step = 7
+			}
+			for o := from; o <= len(text); o += step {
+				for _, pc := range [][]int{nil, {1}, {1 + r.Intn(40)}} {
+					o, pc := o, pc
+					eofWith := r.Bool()
+					cx.ru.Do(func() *h.Case {
+						return adecCase(prefix+"trail-src-fault", text[:o], true, pc, eofWith, []int{48}, fmt.Sprintf("source fails after %d of %d bytes (END line starts at %d, %d bytes of trailing white space)", o, len(text), from, ws))
+					})
+				}
+			}
+			// and exactly at the end
+			cx.ru.Do(func() *h.Case {
+				return adecCase(prefix+"trail-src-fault", text, true, nil, false, []int{48}, fmt.Sprintf("source fails right after the %d bytes", len(text)))
 			})
 		}
 	}
